@@ -9,8 +9,10 @@ import (
 	"crypto/sha1"
 	"encoding/hex"
 	"encoding/json"
+	"encoding/xml"
 	"fmt"
 	"io"
+	"os"
 	"reflect"
 	"regexp"
 	"sort"
@@ -86,6 +88,58 @@ func gridProject(t *document.Table) map[string]interface{} {
 		rows = append(rows, cells)
 	}
 	return map[string]interface{}{"gc": gc, "rows": rows}
+}
+
+// gridProjectSaved projects the w:tbl element the library serialises for the table, read
+// with the independent XML reader (direct children only; nested tables are counted, not entered).
+func gridProjectSaved(t *document.Table) (map[string]interface{}, string) {
+	data, err := xml.Marshal(t)
+	if err != nil {
+		return map[string]interface{}{"gc": 0, "rows": []interface{}{}}, "marshal-error"
+	}
+	root, err := ParseXML(data)
+	if err != nil || root.Local != "tbl" {
+		return map[string]interface{}{"gc": 0, "rows": []interface{}{}}, "xml-error"
+	}
+	gc := -1
+	if g := root.Child("tblGrid"); g != nil {
+		gc = len(g.Children("gridCol"))
+	}
+	rows := []interface{}{}
+	for _, tr := range root.Children("tr") {
+		cells := []interface{}{}
+		for _, tc := range tr.Children("tc") {
+			span, vm := 1, "none"
+			if pr := tc.Child("tcPr"); pr != nil {
+				if gs := pr.Child("gridSpan"); gs != nil {
+					n, err := strconv.Atoi(strings.TrimSpace(gs.A("val")))
+					if err != nil {
+						n = 0
+					}
+					span = n
+				}
+				if v := pr.Child("vMerge"); v != nil {
+					if v.A("val") == "restart" {
+						vm = "restart"
+					} else {
+						vm = "cont"
+					}
+				}
+			}
+			ps := tc.Children("p")
+			var sb strings.Builder
+			for i, p := range ps {
+				sb.WriteString(p.WText())
+				if i < len(ps)-1 {
+					sb.WriteString("\n")
+				}
+			}
+			cells = append(cells, map[string]interface{}{"tok": gridTokOf(sb.String()), "span": span, "vm": vm,
+				"np": len(ps), "nn": len(tc.Children("tbl"))})
+		}
+		rows = append(rows, cells)
+	}
+	return map[string]interface{}{"gc": gc, "rows": rows}, "ok"
 }
 
 // ---- starting tables ---------------------------------------------------------
@@ -486,6 +540,9 @@ func gridCopyProbe(t *document.Table) (map[string]string, string) {
 
 var gridSeen = map[[20]byte]bool{}
 
+// WZ_GRID_SAVE=1: also project the serialised w:tbl after the last step of every behaviour
+var gridSave = os.Getenv("WZ_GRID_SAVE") == "1"
+
 func gridExec(t *document.Table, op Op, i int) string {
 	r, c := op.Int("r"), op.Int("c")
 	txt := gridTokText(op.Int("tok"))
@@ -617,6 +674,15 @@ func runGrid(c Case, emit Emitter) {
 		}
 		if op.Name() == "CopyTable" {
 			body["cp"] = cp
+		}
+		if gridSave && t != nil && i == len(c.Steps)-1 {
+			// serialised form of the table at the end of the behaviour
+			var sv map[string]interface{}
+			var sret string
+			if r, _ := guard(func() string { sv, sret = gridProjectSaved(t); return "ok" }); r == "panic" {
+				sv, sret = map[string]interface{}{"gc": 0, "rows": []interface{}{}}, "panic"
+			}
+			body["sv"] = map[string]interface{}{"ret": sret, "tbl": sv}
 		}
 		js, err := json.Marshal(body)
 		if err != nil {
